@@ -1106,9 +1106,12 @@ class Store:
                 self.recursive_end_process(value[subval])
         return
     
-    def _delete_path(self, path):
+    def _delete_path(self, path, end_parallel=True):
         """
         Delete the subtree at the given path.
+
+        ``end_parallel=False`` only detaches the subtree (a move): its
+        parallel processes live on at the new location.
         """
 
         if not path:
@@ -1120,7 +1123,8 @@ class Store:
         if remove in target.inner:
             lost = target.inner[remove]
             # End any parallel processes to be deleted
-            self.recursive_end_process(target.inner[remove])
+            if end_parallel:
+                self.recursive_end_process(target.inner[remove])
             del target.inner[remove]
             return lost
         return None
@@ -1307,7 +1311,7 @@ class Store:
                 flow_updates.append((
                     process_path, process.flow))
 
-        self._delete_path(source_path)
+        self._delete_path(source_path, end_parallel=False)
 
         here = self.path_for()
         source_absolute = tuple(here + source_path)
